@@ -119,10 +119,27 @@ def self_writes(f: Func):
     out = []
     if f.cls is None and not (f.parent and f.parent.cls):
         return out
+    # local aliases of object state:  x = self.attr  /  x = self.attr[...]  (no call in between, so no copy) and  y = x
+    alias = {}
+    for _ in range(3):
+        for n in own_nodes(f.node):
+            if isinstance(n, ast.Assign) and len(n.targets) == 1 and isinstance(n.targets[0], ast.Name):
+                v = n.value
+                while isinstance(v, ast.Subscript):
+                    v = v.value
+                if isinstance(v, ast.Attribute) and isinstance(v.value, ast.Name) and v.value.id in ("self", "cls"):
+                    alias[n.targets[0].id] = v.attr
+                elif isinstance(v, ast.Name) and v.id in alias:
+                    alias[n.targets[0].id] = alias[v.id]
     for kind, t, n in stores(f):
-        if kind in ("rebind", "aug"):
+        if kind == "aug" and isinstance(n.target, ast.Name):
+            continue
+        if kind == "rebind":
             continue
         root, path = root_of(t)
+        if root in alias and kind in ("item", "attr", "call"):
+            out.append((alias[root], " ".join(ast.unparse(n).split())[:100] + f"  [through the alias `{root}` of self.{alias[root]}]", n.lineno))
+            continue
         if root in ("self", "cls") and path:
             out.append((path[0], " ".join(ast.unparse(n).split())[:100], n.lineno))
         elif root in ("self", "cls") and kind == "item":
@@ -156,13 +173,46 @@ def typed_callgraph(src: Source):
         return _EDGES[id(src)]
     fcache: dict = {}
 
+    def class_field_types(c):
+        """'self.x' -> class, from annotated class-level fields (and bases), from `self.x = <annotated parameter>` and
+        `self.x = Class(...)` in __init__, and one level down through typed fields ('self.x.y')"""
+        if c.qname in fcache:
+            return fcache[c.qname]
+        ft = dict(src.field_types(c))
+        for cls in [c] + list(_all_bases(src, c)):
+            init = cls.methods.get("__init__")
+            if init is None:
+                continue
+            ann = {}
+            for p in init.node.args.args + init.node.args.kwonlyargs:
+                if p.annotation is not None:
+                    d = src.dotted(p.annotation)
+                    q = src.resolve_name(init.module, d) if d else None
+                    if q in src.classes:
+                        ann[p.arg] = q
+            for n in own_nodes(init.node):
+                if isinstance(n, ast.Assign) and len(n.targets) == 1 and isinstance(n.targets[0], ast.Attribute) \
+                        and isinstance(n.targets[0].value, ast.Name) and n.targets[0].value.id == "self":
+                    key = f"self.{n.targets[0].attr}"
+                    if isinstance(n.value, ast.Name) and n.value.id in ann:
+                        ft.setdefault(key, ann[n.value.id])
+                    elif isinstance(n.value, ast.Call):
+                        d = src.dotted(n.value.func)
+                        q = src.resolve_name(init.module, d) if d else None
+                        if q in src.classes:
+                            ft.setdefault(key, q)
+        fcache[c.qname] = ft
+        for key, q in list(ft.items()):
+            if key.count(".") == 1 and q in src.classes and src.classes[q] is not c:
+                for k2, q2 in src.field_types(src.classes[q]).items():
+                    ft.setdefault(key + k2[len("self"):], q2)
+        return ft
+
     def local_types_for(f):
         out = {}
         c = f.cls or (f.parent.cls if f.parent else None)
         if c is not None:
-            if c.qname not in fcache:
-                fcache[c.qname] = src.field_types(c)
-            out.update(fcache[c.qname])
+            out.update(class_field_types(c))
         a = f.node.args
         for p in a.posonlyargs + a.args + a.kwonlyargs:
             if p.annotation is not None:
@@ -176,6 +226,10 @@ def typed_callgraph(src: Source):
                 q = src.resolve_name(f.module, d) if d else None
                 if q in src.classes:
                     out[n.targets[0].id] = q
+            elif isinstance(n, ast.Assign) and len(n.targets) == 1 and isinstance(n.targets[0], ast.Name) and isinstance(n.value, ast.Attribute):
+                d = src.dotted(n.value)          # sc = self.managers.couplings
+                if d in out:
+                    out[n.targets[0].id] = out[d]
         return out
 
     _EDGES[id(src)] = src.callgraph(local_types_for)[0]
